@@ -174,6 +174,8 @@ impl PersisterTask {
         while let Ok(request) = receiver.recv_async().await {
             match request {
                 PersisterTaskCommand::WriteRequest(batch_to_write) => {
+                    #[cfg(feature = "verif")]
+                    crate::verif::sched_point("persister_task_before_write").await;
                     match Self::write_with_retries(
                         &mut file,
                         &file_path,
@@ -185,6 +187,8 @@ impl PersisterTask {
                     .await
                     {
                         Ok(bytes_written) => {
+                            #[cfg(feature = "verif")]
+                            crate::verif::sched_point("persister_task_before_publish").await;
                             log_file_size.fetch_add(bytes_written, Ordering::AcqRel);
                         }
                         Err(e) => {
@@ -219,6 +223,8 @@ impl PersisterTask {
         max_retries: u32,
         retry_delay: IggyDuration,
     ) -> Result<u64, IggyError> {
+        #[cfg(feature = "verif")]
+        let _verif = crate::verif::fs_event_on_drop("log_write_nowait", file_path);
         let header = batch_to_write.header_as_bytes();
         let batch_bytes = batch_to_write.bytes;
         let slices = [IoSlice::new(&header), IoSlice::new(&batch_bytes)];
